@@ -110,12 +110,15 @@ Definition parse_token (tok : bytes) : option val :=
   | _ => option_map (fun n => I (Z.of_N n)) (parse_dec tok 0)
   end.
 
+(** linear-time reversal (List.rev is quadratic: a 50 kB case line took half a minute to split) *)
+Definition rev_fast {A} (l : list A) : list A := rev_append l [].
+
 (** [stack]: accumulators of the enclosing open lists, innermost first, each reversed. *)
 Definition flush (tokrev : bytes) (stack : list (list val)) : option (list (list val)) :=
   match tokrev with
   | [] => Some stack
   | _ =>
-      match parse_token (rev tokrev), stack with
+      match parse_token (rev_fast tokrev), stack with
       | Some v, top :: rest => Some ((v :: top) :: rest)
       | _, _ => None
       end
@@ -136,7 +139,7 @@ Fixpoint parse_go (cs : bytes) (tokrev : bytes) (stack : list (list val)) : opti
         end
       else if c =? 41 then
         match flush tokrev stack with
-        | Some (top :: next :: rest) => parse_go r [] ((L (rev top) :: next) :: rest)
+        | Some (top :: next :: rest) => parse_go r [] ((L (rev_fast top) :: next) :: rest)
         | _ => None
         end
       else if c =? 32 then
@@ -177,6 +180,6 @@ Definition bytes_eqb : bytes -> bytes -> bool := list_eqb N.eqb.
 (** split a line at TAB (9) *)
 Fixpoint split_tab (cs : bytes) (cur : bytes) : list bytes :=
   match cs with
-  | [] => [rev cur]
-  | c :: r => if c =? 9 then rev cur :: split_tab r [] else split_tab r (c :: cur)
+  | [] => [rev_fast cur]
+  | c :: r => if c =? 9 then rev_fast cur :: split_tab r [] else split_tab r (c :: cur)
   end.
